@@ -408,6 +408,28 @@ fn random_history(t: &mut Tape, gates: &Gates) -> Vec<Note> {
                 _ => format!("\n\n   {}", shared),
             });
         }
+        // now and then a document that declares one name twice ITSELF: the diagnostic then has a
+        // second label ("first definition") in the same document, in front of the reported one -
+        // the position shown for the diagnostic is that of its primary label, here and on the
+        // command line
+        if t.ratio(1, 5) {
+            let nm = format!("{}twice", ["a", "b"][u]);
+            let forms = [
+                format!("FUNCTION_BLOCK {}\nVAR_INPUT\ni : INT;\nEND_VAR\nEND_FUNCTION_BLOCK\n", nm),
+                format!("TYPE\n{} : (tw_a{u}, tw_b{u});\nEND_TYPE\n", nm, u = u),
+                format!("PROGRAM {}\nVAR\nq : INT;\nEND_VAR\nq := 1;\nEND_PROGRAM\n", nm),
+                format!("FUNCTION {n} : INT\nVAR_INPUT\ni : INT;\nEND_VAR\n{n} := i;\nEND_FUNCTION\n", n = nm),
+                format!("TYPE\n{} : STRUCT\ntw_m : INT;\nEND_STRUCT;\nEND_TYPE\n", nm),
+            ];
+            let first = forms[t.below(forms.len())].clone();
+            let second = if t.flag() { first.clone() } else { forms[t.below(forms.len())].clone() };
+            let own = docs[u].iter().find(|d| d.contains("END_")).cloned().unwrap_or_default();
+            docs[u].push(match t.below(3) {
+                0 => format!("{}{}", first, second),
+                1 => format!("{}\n{}\n{}", first, own, second),
+                _ => format!("(* twice *)\n\n{}   {}", first, second),
+            });
+        }
         // now and then a document with a great many diagnostics of its own (a rule that reports every
         // occurrence): nothing is cut off, in this document or in the other one
         if t.ratio(1, 8) {
